@@ -30,11 +30,15 @@ def lookups(ctx, viol, st):
         prob = ProblemFromDataset(ds, 0.01)
         # queries: on grid, off grid (nearest unique by a margin), single point and batches
         qs = []
-        for _ in range(6):
-            if rng.random() < 0.5:
+        for _ in range(8):
+            u = rng.random()
+            if u < 0.4:
                 qs.append(list(rng.choice(X)))
-            else:
+            elif u < 0.7:
                 qs.append([rng.randint(0, 64) / 64.0 + 1 / 1024.0 for _ in range(d)])
+            else:
+                # outside the unit cube (any point may be queried; the nearest design is still defined)
+                qs.append([rng.randint(-128, 192) / 64.0 + 1 / 1024.0 for _ in range(d)])
         Xq = [[F(v) for v in x] for x in X]
         def want(q):
             dist = [sum((F(a) - b) ** 2 for a, b in zip(q, x)) for x in Xq]
@@ -56,9 +60,15 @@ def lookups(ctx, viol, st):
                     ok = np.array_equal(y[0], np.array(Y[i]))
                 if y.shape != (1, m) or not ok:
                     viol.append({"signature": "nearest-design-value", "message": f"evaluate({q}, noisy=False) returned {y.tolist()}, nearest design {i} has {Y[i]}", "replay": {"kind": "lookup", "X": X, "Y": Y, "q": q}})
-        # 1-D single point
-        q = list(rng.choice(X))
-        y = prob.evaluate(np.array(q), noisy=False)
+        # 1-D single point (on the grid, or far outside the cube)
+        q = list(rng.choice(X)) if rng.random() < 0.5 else [rng.randint(-128, 192) / 64.0 + 1 / 1024.0 for _ in range(d)]
+        arg1 = np.array(q); keep1 = arg1.copy()
+        y = prob.evaluate(arg1, noisy=False)
+        if not np.array_equal(arg1, keep1):
+            viol.append({"signature": "evaluate-mutates-input", "message": "ProblemFromDataset.evaluate modified its 1-D argument", "replay": {"kind": "lookup", "X": X, "q": q, "one_d": True}})
+        i1, margin1 = want(q)
+        if margin1 >= Fraction(1, 2 ** 12) and y.shape == (1, m) and not np.array_equal(y[0], np.array(Y[i1])):
+            viol.append({"signature": "nearest-design-value", "message": f"evaluate({q}, noisy=False) returned {y.tolist()}, nearest design {i1} has {Y[i1]}", "replay": {"kind": "lookup", "X": X, "Y": Y, "q": q}})
         if y.shape != (1, m):
             viol.append({"signature": "single-point-shape", "message": f"evaluate of a 1-D point returned shape {y.shape}", "replay": {"kind": "lookup", "X": X, "q": q}})
         # decoupled forms
